@@ -140,10 +140,10 @@ class _ItemTimeout(BaseException):
 
 
 def _worker_run(item):
-    """One work item under a wall-clock limit (VERIF_ITEM_S, default 900 s): an item that does not finish is reported as
+    """One work item under a wall-clock limit (VERIF_ITEM_S, default 1500 s): an item that does not finish is reported as
     out of reach (exit 2), never as a verdict, and never blocks the run."""
     import signal
-    limit = int(float(os.environ.get("VERIF_ITEM_S", "600")))
+    limit = int(float(os.environ.get("VERIF_ITEM_S", "1500")))
 
     def on_alarm(signum, frame):
         raise _ItemTimeout()
@@ -276,7 +276,7 @@ def _run_pool(eng, items, workers):
     dead-lock); if no item completes for a long time the pool is abandoned and the remaining items are run in this process."""
     import multiprocessing as mp
     from concurrent.futures import ProcessPoolExecutor, wait, FIRST_COMPLETED
-    stall_s = float(os.environ.get("VERIF_STALL_S", "1200"))
+    stall_s = float(os.environ.get("VERIF_STALL_S", "2400"))
     outs = [None] * len(items)
     ctx = mp.get_context("forkserver")
     ex = ProcessPoolExecutor(max_workers=min(workers, max(1, len(items))), mp_context=ctx, initializer=_worker_init, initargs=(eng.repo, os.getpid()))
